@@ -1314,3 +1314,248 @@ Section ResolveSemver.
     Qed.
   End Pair.
 End ResolveSemver.
+
+(** * The executable specification ([spec_first], the three set printers) against the declarative one.
+      The lookup the executable specification performs, [get_b], implements its discipline on a consistent
+      table; hence it agrees pointwise with the lookups of the models, [spec_first] is the first-failure
+      verdict, and the printers enumerate the failure classes. *)
+Section SpecExec.
+  Variable K : Type.
+  Variable promote : K -> K.
+  Variable sub : K -> K -> bool.
+
+  Definition get_b {V} (d : discipline) (es : list (str * V)) (q : str) : option V :=
+    match consulted d es q with [] => None | e :: _ => Some (snd e) end.
+
+  Lemma implements_exists {V} d (es : list (str * V)) : consistent es -> exists get, implements d es get.
+  Proof.
+    intros C. destruct d.
+    - exists (im_get es). now apply exact_implements.
+    - destruct (nm_fill_total es) as [m [F _]]. exists (nm_get m). now apply semver_implements.
+  Qed.
+
+  Lemma implements_ext {V} d (es : list (str * V)) g g' : implements d es g -> implements d es g' -> forall q, g q = g' q.
+  Proof.
+    intros G G' q. destruct (g q) as [x|] eqn:E.
+    - apply (proj1 (G q)) in E. apply (proj1 (G' q)) in E. now rewrite E.
+    - apply (proj2 (G q)) in E. apply (proj2 (G' q)) in E. now rewrite E.
+  Qed.
+
+  Lemma get_b_implements {V} d (es : list (str * V)) : consistent es -> implements d es (get_b d es).
+  Proof.
+    intros C. destruct (implements_exists d es C) as [g G]. intros q.
+    assert (forall x, get_b d es q = Some x -> consult d es q x) as S1.
+    { unfold get_b. intros x. destruct (consulted d es q) as [|e l] eqn:E; [discriminate|].
+      intros H. injection H as <-. apply consulted_iff. exists e. rewrite E. split; auto. now left. }
+    assert (forall x, consult d es q x -> get_b d es q = Some x) as S2.
+    { intros x Cx. apply consulted_iff in Cx as [e [I Ex]]. unfold get_b.
+      destruct (consulted d es q) as [|e0 l] eqn:E; [destruct I|]. f_equal.
+      eapply (consult_fun V d es g G q).
+      - apply consulted_iff. exists e0. rewrite E. split; auto. now left.
+      - apply consulted_iff. exists e. rewrite E. auto. }
+    split.
+    - intros x. split; auto.
+    - split.
+      + intros N. destruct (consult_or_absent V d es g G q) as [[x Cx]|A]; auto.
+        rewrite (S2 x Cx) in N. discriminate.
+      + intros A. destruct (get_b d es q) as [x|] eqn:E; auto. exfalso.
+        eapply (consult_not_absent V d es g G q); eauto.
+  Qed.
+
+  (** all consulted entries of a consistent table carry one value: [classify] is a lookup followed by the test *)
+  Lemma classify_get_b {V} d (es : list (str * V)) q test : consistent es ->
+    classify d es q test = match get_b d es q with
+                           | None => StOutside
+                           | Some x => if test x then StOk else StMismatch
+                           end.
+  Proof.
+    intros C. destruct (implements_exists d es C) as [g G]. unfold classify, get_b.
+    destruct (consulted d es q) as [|e l] eqn:E; auto.
+    assert (forall e', In e' (e :: l) -> snd e' = snd e) as Same.
+    { intros e' I. apply (consult_fun V d es g G q).
+      - apply consulted_iff. exists e'. rewrite E. auto.
+      - apply consulted_iff. exists e. rewrite E. split; auto. now left. }
+    assert (existsb (fun e0 => test (snd e0)) (e :: l) = test (snd e)) as ->; auto.
+    destruct (test (snd e)) eqn:T.
+    - cbn. now rewrite T.
+    - destruct (existsb _ (e :: l)) eqn:X; auto. apply existsb_exists in X as [e' [I T']].
+      rewrite (Same e' I) in T'. congruence.
+  Qed.
+
+  Section Pair.
+    Variable d : discipline.
+    Variable w : tworld K.
+    Variable c : comp K.
+    Hypothesis WF : wf_pair w c.
+    Let gi := get_b d (wtable w).
+    Let ge := get_b d (c_exports c).
+    Let GI : implements d (wtable w) gi. Proof. apply get_b_implements, WF. Qed.
+    Let GE : implements d (c_exports c) ge. Proof. apply get_b_implements, WF. Qed.
+
+    Lemma import_status_step i :
+      import_status promote sub d w i =
+      match imp_step K promote sub gi i with
+      | None => StOk
+      | Some (ImportNotInTarget _) => StOutside
+      | Some _ => StMismatch
+      end.
+    Proof.
+      unfold import_status. rewrite classify_get_b by apply WF. unfold imp_step. fold gi.
+      destruct (gi (iname i)); auto. destruct (sub _ _); auto.
+    Qed.
+    Lemma export_status_step x :
+      export_status promote sub d c x =
+      match exp_step K promote sub ge x with
+      | None => StOk
+      | Some (MissingTargetExport _) => StOutside
+      | Some _ => StMismatch
+      end.
+    Proof.
+      unfold export_status. rewrite classify_get_b by apply WF. unfold exp_step. fold ge.
+      destruct (ge (fst x)); auto. destruct (sub _ _); auto.
+    Qed.
+
+    Lemma first_bad_imports l :
+      match first_bad (import_status promote sub d w) l with
+      | Some (i, StOutside) => Some (ImportNotInTarget (iname i))
+      | Some (i, _) => Some (TargetMismatch EImport (iname i))
+      | None => None
+      end = scan (imp_step K promote sub gi) l.
+    Proof.
+      induction l as [|i l IH]; cbn [first_bad scan]; auto. rewrite import_status_step.
+      destruct (imp_step K promote sub gi i) as [e|] eqn:E; [|exact IH].
+      unfold imp_step in E. destruct (gi (iname i)); [destruct (sub _ _)|]; try discriminate;
+        injection E as <-; reflexivity.
+    Qed.
+    Lemma first_bad_exports l :
+      match first_bad (export_status promote sub d c) l with
+      | Some (x, StOutside) => Some (MissingTargetExport (fst x))
+      | Some (x, _) => Some (TargetMismatch EExport (fst x))
+      | None => None
+      end = scan (exp_step K promote sub ge) l.
+    Proof.
+      induction l as [|x l IH]; cbn [first_bad scan]; auto. rewrite export_status_step.
+      destruct (exp_step K promote sub ge x) as [e|] eqn:E; [|exact IH].
+      unfold exp_step in E. destruct (ge (fst x)); [destruct (sub _ _)|]; try discriminate;
+        injection E as <-; reflexivity.
+    Qed.
+
+    (** [spec_first] is the first-failure verdict over the specification's own lookups *)
+    Lemma spec_first_ff : spec_first promote sub d w c = ff_verdict K promote sub w c gi ge.
+    Proof.
+      unfold spec_first, ff_verdict. rewrite <- first_bad_imports, <- first_bad_exports.
+      destruct (first_bad (import_status promote sub d w) (c_imports c)) as [[i []]|]; auto.
+      destruct (first_bad (export_status promote sub d c) (tw_exports w)) as [[x []]|]; auto.
+    Qed.
+
+    Theorem spec_first_spec :
+      (spec_first promote sub d w c = ROk <-> Conforms promote sub d w c) /\
+      (forall n, spec_first promote sub d w c = RErr (ImportNotInTarget n) <-> diag_import_not_in_target promote sub d w c n) /\
+      (forall n, spec_first promote sub d w c = RErr (TargetMismatch EImport n) <-> diag_import_mismatch promote sub d w c n) /\
+      (forall n, spec_first promote sub d w c = RErr (MissingTargetExport n) <-> diag_missing_export promote sub d w c n) /\
+      (forall n, spec_first promote sub d w c = RErr (TargetMismatch EExport n) <-> diag_export_mismatch promote sub d w c n).
+    Proof.
+      rewrite spec_first_ff. split; [|split; [|split; [|split]]].
+      - now apply ff_ok_iff.
+      - intros n. now apply ff_import_not_in_target.
+      - intros n. now apply ff_import_mismatch.
+      - intros n. now apply ff_missing_export.
+      - intros n. now apply ff_export_mismatch.
+    Qed.
+
+    (** the set printers enumerate the three failure classes *)
+    Theorem spec_sets_spec :
+      (forall n, In n (spec_not_in_target promote sub d w c) <-> in_not_in_target d w c n) /\
+      (forall n, In n (spec_missing promote sub d w c) <-> in_missing d w c n) /\
+      (forall n, In n (spec_mismatched promote sub d w c) <-> in_mismatched promote sub d w c n).
+    Proof.
+      assert (forall i, import_status promote sub d w i = StOutside <-> import_outside d w i) as IO.
+      { intros i. rewrite import_status_step. split.
+        - intros H. destruct (imp_step K promote sub gi i) as [[m|ex m|m]|] eqn:E; try discriminate.
+          now apply (imp_step_outside K promote sub d w gi GI) in E.
+        - intros O. assert (imp_step K promote sub gi i = Some (ImportNotInTarget (iname i))) as ->; auto.
+          apply (imp_step_outside K promote sub d w gi GI). auto. }
+      assert (forall i, import_status promote sub d w i = StMismatch <-> import_mismatch promote sub d w i) as IM.
+      { intros i. rewrite import_status_step. split.
+        - intros H. destruct (imp_step K promote sub gi i) as [[m|[|] m|m]|] eqn:E; try discriminate.
+          + now apply (imp_step_mismatch K promote sub d w gi GI) in E.
+          + exfalso. destruct (imp_step_other K promote sub gi i) as [_ O]. exact (O m E).
+          + exfalso. destruct (imp_step_other K promote sub gi i) as [O _]. exact (O m E).
+        - intros M. assert (imp_step K promote sub gi i = Some (TargetMismatch EImport (iname i))) as ->; auto.
+          apply (imp_step_mismatch K promote sub d w gi GI). auto. }
+      assert (forall x, export_status promote sub d c x = StOutside <-> export_missing d c x) as EO.
+      { intros x. rewrite export_status_step. split.
+        - intros H. destruct (exp_step K promote sub ge x) as [[m|ex m|m]|] eqn:E; try discriminate.
+          now apply (exp_step_missing K promote sub d c ge GE) in E.
+        - intros O. assert (exp_step K promote sub ge x = Some (MissingTargetExport (fst x))) as ->; auto.
+          apply (exp_step_missing K promote sub d c ge GE). auto. }
+      assert (forall x, export_status promote sub d c x = StMismatch <-> export_mismatch promote sub d c x) as EM.
+      { intros x. rewrite export_status_step. split.
+        - intros H. destruct (exp_step K promote sub ge x) as [[m|[|] m|m]|] eqn:E; try discriminate.
+          + exfalso. destruct (exp_step_other K promote sub ge x) as [O _]. exact (O m E).
+          + exfalso. destruct (exp_step_other K promote sub ge x) as [_ O]. exact (O m E).
+          + now apply (exp_step_mismatch K promote sub d c ge GE) in E.
+        - intros M. assert (exp_step K promote sub ge x = Some (TargetMismatch EExport (fst x))) as ->; auto.
+          apply (exp_step_mismatch K promote sub d c ge GE). auto. }
+      assert (forall (s : status), (match s with StOutside => true | _ => false end) = true <-> s = StOutside) as BO
+          by (intros []; split; congruence).
+      assert (forall (s : status), (match s with StMismatch => true | _ => false end) = true <-> s = StMismatch) as BM
+          by (intros []; split; congruence).
+      split; [|split]; intros n.
+      - unfold spec_not_in_target, in_not_in_target. rewrite in_map_iff. split.
+        + intros [i [N H]]. apply filter_In in H as [H S]. apply BO, IO in S. eauto.
+        + intros [i [H [N O]]]. exists i. split; auto. apply filter_In. split; auto. now apply BO, IO.
+      - unfold spec_missing, in_missing. rewrite in_map_iff. split.
+        + intros [x [N H]]. apply filter_In in H as [H S]. apply BO, EO in S. eauto.
+        + intros [x [H [N O]]]. exists x. split; auto. apply filter_In. split; auto. now apply BO, EO.
+      - unfold spec_mismatched, in_mismatched. rewrite in_app_iff, !in_map_iff. split.
+        + intros [[i [N H]]|[x [N H]]]; apply filter_In in H as [H S].
+          * left. apply BM, IM in S. eauto.
+          * right. apply BM, EM in S. eauto.
+        + intros [[i [H [N O]]]|[x [H [N O]]]].
+          * left. exists i. split; auto. apply filter_In. split; auto. now apply BM, IM.
+          * right. exists x. split; auto. apply filter_In. split; auto. now apply BM, EM.
+    Qed.
+  End Pair.
+
+  (** hence the executable specification and the models compute the same verdicts *)
+  Theorem spec_first_exact_is_model (w : tworld K) (c : comp K) : wf_pair w c ->
+    spec_first promote sub Exact w c = resolve_target promote sub w c.
+  Proof.
+    intros WF. rewrite (spec_first_ff Exact w c WF).
+    unfold resolve_target, ff_verdict. rewrite rt_imports_scan, rt_exports_scan.
+    assert (forall q, get_b Exact (wtable w) q = rt_expected w q) as E1.
+    { intros q. rewrite rt_expected_wtable. apply (implements_ext Exact (wtable w)).
+      - apply get_b_implements, WF.
+      - apply exact_implements, WF. }
+    assert (forall q, get_b Exact (c_exports c) q = im_get (c_exports c) q) as E2.
+    { intros q. apply (implements_ext Exact (c_exports c)).
+      - apply get_b_implements, WF.
+      - apply exact_implements, WF. }
+    assert (forall l, scan (imp_step K promote sub (get_b Exact (wtable w))) l = scan (imp_step K promote sub (rt_expected w)) l) as ->.
+    { induction l as [|i l IH]; cbn; auto. unfold imp_step at 1 3. rewrite E1, IH. reflexivity. }
+    assert (forall l, scan (exp_step K promote sub (get_b Exact (c_exports c))) l = scan (exp_step K promote sub (im_get (c_exports c))) l) as ->.
+    { induction l as [|x l IH]; cbn; auto. unfold exp_step at 1 3. rewrite E2, IH. reflexivity. }
+    reflexivity.
+  Qed.
+
+  Theorem spec_first_semver_is_model (w : tworld K) (c : comp K) : wf_pair w c ->
+    resolve_target_sv promote sub w c = Some (spec_first promote sub Semver w c).
+  Proof.
+    intros WF. destruct (resolve_sv_ff K promote sub w c) as [wi [ce [Fw [Fc E]]]]. rewrite E. f_equal.
+    rewrite (spec_first_ff Semver w c WF). unfold ff_verdict.
+    assert (forall q, get_b Semver (wtable w) q = nm_get wi q) as E1.
+    { intros q. apply (implements_ext Semver (wtable w)).
+      - apply get_b_implements, WF.
+      - apply semver_implements; [apply WF | exact Fw]. }
+    assert (forall q, get_b Semver (c_exports c) q = nm_get ce q) as E2.
+    { intros q. apply (implements_ext Semver (c_exports c)).
+      - apply get_b_implements, WF.
+      - apply semver_implements; [apply WF | exact Fc]. }
+    assert (forall l, scan (imp_step K promote sub (get_b Semver (wtable w))) l = scan (imp_step K promote sub (nm_get wi)) l) as ->.
+    { induction l as [|i l IH]; cbn; auto. unfold imp_step at 1 3. rewrite E1, IH. reflexivity. }
+    assert (forall l, scan (exp_step K promote sub (get_b Semver (c_exports c))) l = scan (exp_step K promote sub (nm_get ce)) l) as ->.
+    { induction l as [|x l IH]; cbn; auto. unfold exp_step at 1 3. rewrite E2, IH. reflexivity. }
+    reflexivity.
+  Qed.
+End SpecExec.
